@@ -88,7 +88,7 @@ META = {
             "that peer, present-add and absent-remove append nothing (even under lost replies and retries), the last peer and the last voter are never "
             "removed, a peer that WaitForSync calls ready has applied every entry logged before its own addition, a removed peer shuts down and cleans "
             "after stopping consensus, a peer that could not leave keeps its data, Clean empties the data folder after every removal in any history of re-adding the same peer "
-            "(backup rotation), re-pins precede RmPeer; and (allowed_holds_partial, for a data_folder without trailing slash; refuted with one: K35): every script "
+            "(backup rotation, with or without a trailing slash in data_folder), re-pins precede RmPeer; and (allowed_holds, no proviso): every script "
             "outcome the model allows satisfies every clause of the property written from its text. The model is tied to the code by running seeded scripts on real Raft peers (and full clusters) and comparing outcomes, peersets "
             "and pinsets of every member with the model, by evaluating the Lean property clauses on the implementation's own outputs, and by a go/ast "
             "skeleton of the anchored functions over which the guard/ordering facts are re-checked by `decide`.",
